@@ -431,6 +431,57 @@ def hfp_slc(hf_bits: int, ag_bits: int, hf_rest: int, ag_rest: int) -> bool:
             return commands == finals
 
 
+_INDS = [hfp.HfIndicator.ENHANCED_SAFETY, hfp.HfIndicator.BATTERY_LEVEL]
+_CODS = [hfp.AudioCodec.CVSD, hfp.AudioCodec.MSBC]
+_HOLDS = [hfp.CallHoldOperation.RELEASE_ALL_HELD_CALLS, hfp.CallHoldOperation.HOLD_ALL_ACTIVE_CALLS]
+
+
+@harness(pre=['0 <= hf_ind <= 3 and 0 <= ag_ind <= 3 and 1 <= hf_cod <= 3 and 1 <= ag_cod <= 3 and 0 <= chld <= 3'], family='hfp-slc', twin=True, kernels=K_HFP, timeout=(200, 500),
+         bounds='real HfProtocol.initiate_slc against the real AgProtocol with codec negotiation, three-way calling and HF indicators supported on both sides and ASYMMETRIC lists: HF indicator list and AG indicator list any subset of {enhanced safety, battery level} (empty included), codec lists any non-empty subset of {CVSD, mSBC} on each side, AG call-hold operations any subset of two: the procedure completes; the AG holds exactly the HF indicators both sides listed, the HF marks exactly those as supported and enabled; the AG knows the HF codec list; the HF knows the AG call-hold operations; one final result per command')
+def hfp_slc_asymmetric_lists(hf_ind: int, ag_ind: int, hf_cod: int, ag_cod: int, chld: int) -> bool:
+    hf_ind, ag_ind, hf_cod, ag_cod, chld = C(hf_ind, 0, 3), C(ag_ind, 0, 3), C(hf_cod, 1, 3), C(ag_cod, 1, 3), C(chld, 0, 3)
+    pick = lambda xs, m: [x for k, x in enumerate(xs) if (m >> k) & 1]
+    with untraced():
+        with detloop.running() as loop:
+            da, db = _PipeDlc(loop), _PipeDlc(loop)
+            da.peer, db.peer = db, da
+            ag = hfp.AgProtocol(db, hfp.AgConfiguration(
+                supported_ag_features=list(_AG_STEER),
+                supported_ag_indicators=[hfp.AgIndicatorState.call(), hfp.AgIndicatorState.service(), hfp.AgIndicatorState.callsetup()],
+                supported_hf_indicators=pick(_INDS, ag_ind),
+                supported_ag_call_hold_operations=pick(_HOLDS, chld),
+                supported_audio_codecs=pick(_CODS, ag_cod)))
+            hf = hfp.HfProtocol(da, hfp.HfConfiguration(
+                supported_hf_features=list(_HF_STEER),
+                supported_hf_indicators=pick(_INDS, hf_ind),
+                supported_audio_codecs=pick(_CODS, hf_cod)))
+            done = []
+            ag.on(ag.EVENT_SLC_COMPLETE, lambda: done.append(1))
+            t = loop.create_task(hf.initiate_slc())
+            for _ in range(200):
+                loop.run_ready()
+                if t.done() or not loop.advance():
+                    break
+            loop.run_ready()
+            if not t.done() or t.exception() is not None or len(done) != 1:
+                return False
+            both = set(pick(_INDS, hf_ind)) & set(pick(_INDS, ag_ind))
+            if set(ag.hf_indicators) != both:
+                return False
+            if set(hf.hf_indicators) != set(pick(_INDS, hf_ind)):
+                return False
+            for i, st in hf.hf_indicators.items():
+                if bool(st.supported) != (i in both) or bool(st.enabled) != (i in both):
+                    return False
+            if list(ag.supported_audio_codecs) != pick(_CODS, hf_cod):
+                return False                       # what the HF announced with AT+BAC
+            if list(hf.supported_ag_call_hold_operations) != pick(_HOLDS, chld):
+                return False
+            commands = sum(d.count(b'\r') for d in da.written)
+            finals = sum(len(re.findall(r'\r\n(OK|ERROR|\+CME ERROR: \d+)\r\n', d.decode())) for d in db.written)
+            return commands == finals
+
+
 @harness(pre=['0 <= cmd <= 3 and 0 <= ind <= 2 and 0 <= val <= 1 and 0 <= where <= 1'], family='hf-routing', twin=True, kernels=K_HFP, timeout=(90, 300),
          bounds='the HF has a command pending (ATA, AT+CHUP, AT+CHLD=? or AT+CIND?, symbolic) and the AG sends an unsolicited +CIEV (symbolic indicator and value) before or after that command\'s own response line, then OK: the command completes with exactly its own response (the +CIEV is not taken for it), and the unsolicited line is queued for the indicator handling')
 def hf_unsolicited_result_is_not_a_response(cmd: int, ind: int, val: int, where: int) -> bool:
